@@ -456,7 +456,13 @@ func (v *Validator) ValidatePath(p *ingest.GenericFeature, fs []ingest.Feature) 
 	o := ingest.ValidateOptions{InvertClockwisePaths: true}
 	if err := ingest.ValidatePath(p, &o, v.locations); err == nil {
 		fs = append(fs, p)
-		state = ValidationStateValid
+		if isClosedForArea(p) {
+			state = ValidationStateValid
+		} else {
+			// The path itself is fine, but areas can only be
+			// made from closed paths.
+			state = ValidationStateInvalid
+		}
 	} else {
 		state = ValidationStateInvalid
 		log.Printf("ValidatePath: drop invalid path: %s", err)
@@ -472,6 +478,19 @@ func (v *Validator) ValidatePath(p *ingest.GenericFeature, fs []ingest.Feature) 
 	}
 	v.lock.Unlock()
 	return fs
+}
+
+// isClosedForArea returns whether a valid path ends where it started, either
+// at the same point feature, or at the same lat/lng.
+func isClosedForArea(p *ingest.GenericFeature) bool {
+	if p.Tags.ClosedPath() {
+		return true
+	}
+	if n := p.GeometryLen(); n > 2 {
+		first, last := p.PointAt(0), p.PointAt(n-1)
+		return first.Norm() != 0 && first == last
+	}
+	return false
 }
 
 func (v *Validator) ValidateArea(a *ingest.AreaFeature, fs []ingest.Feature) []ingest.Feature {
